@@ -17,8 +17,10 @@ pub struct ViewNumber(pub u64);
 
 impl ViewNumber {
     /// Get the next view number.
+    /// Saturates at `u64::MAX`: view numbers of unverified messages are attacker-controlled,
+    /// so this must not overflow.
     pub fn next(self) -> Self {
-        Self(self.0 + 1)
+        Self(self.0.saturating_add(1))
     }
 
     /// Get the previous view number.
